@@ -81,7 +81,7 @@ End Try.
 (* ---- end to end: the drivers applied to a program (Hand/Prog.v, evaluated over the translated operations) return the derivatives of the real function the
    program computes -- C05 composed with C03.  fR p x is the real evaluation with one input; replace_at x i t puts t at position i. *)
 From ND Require Import Prog C03_proofs C05_programs.
-From ND Require Import C04_proofs C03_mixed C05_hessian.
+From ND Require Import C04_proofs C03_mixed C03_mixed3 C05_hessian.
 Theorem C05_first_derivative_of_program : forall p x, okR (x :: nil) p ->
   exists l, first_derivative (fun d => eval (d :: nil) p) x = (fR p x, l) /\ is_derive (fR p) x l.
 Proof. exact first_derivative_of_program. Qed.
@@ -131,6 +131,16 @@ Theorem C05_partial_hessian_of_program : forall p (x y : list R), okR (x ++ y) p
       exists ft : R -> R, locally xi (fun s => is_derive (f s) yj (ft s)) /\ mget Gy j 0 = ft xi /\ is_derive ft xi (mget H i j).
 Proof. exact partial_hessian_of_program. Qed.
 
+(* third_partial_derivative: the eight parts; the last is d/dx d/dy d/dz of the real function the program computes *)
+Theorem C05_third_partial_derivative_of_program : forall p x y z, okR (x :: y :: z :: nil) p ->
+  let f := fun s t u => eval (T:=R) (s :: t :: u :: nil) p in
+  exists fx fy fz fxy fxz fyz fxyz (vt : R -> R) (g3 : R -> R -> R) (gt : R -> R),
+    third_partial_derivative (fun a b c => eval (a :: b :: c :: nil) p) x y z = (f x y z :: fx :: fy :: fz :: fxy :: fxz :: fyz :: fxyz :: nil) /\
+    is_derive (fun s => f s y z) x fx /\ locally x (fun s => is_derive (fun t => f s t z) y (vt s)) /\ fy = vt x /\ is_derive vt x fxy /\
+    locally x (fun s => locally y (fun t => is_derive (f s t) z (g3 s t))) /\ fz = g3 x y /\
+    locally x (fun s => is_derive (g3 s) y (gt s)) /\ is_derive (fun s => g3 s y) x fxz /\ fyz = gt x /\ is_derive gt x fxyz.
+Proof. exact third_partial_derivative_of_program. Qed.
+
 (* non-vacuity: a three-element input has a third element *)
 Example C05_seed_example : exists s, nth_error (seed_gradient [1; 2; 3]) 2 = Some s /\ part_DualVec s (2%nat :: nil) = 1 /\ part_DualVec s (0%nat :: nil) = 0.
 Proof. eexists; split; [reflexivity|]. split; rcbv; reflexivity. Qed.
@@ -156,5 +166,6 @@ Definition C05_bundle := (C05_seed_gradient_spec,
   C05_second_partial_derivative_of_program,
   C05_shift2_meaning,
   C05_hessian_of_program,
-  C05_partial_hessian_of_program).
+  C05_partial_hessian_of_program,
+  C05_third_partial_derivative_of_program).
 Print Assumptions C05_bundle.
